@@ -459,6 +459,23 @@ func (ck *checker) check(op string, p jpref.Path, d0 any, enum bool, modKind str
 	}
 	switch op {
 	case "Del", "Remove", "Modify":
+		if !eq(want, result) && op == "Remove" && hasFilter(p) {
+			// removing below a node can make a filter select that node afterwards (evaluation and mutation
+			// are interleaved): the states reached by re-applying the removal are accepted too
+			w := want
+			for it := 0; it < 3 && !eq(w, result); it++ {
+				ls := map[string]bool{}
+				for _, r := range jpref.Eval(p, w, jpref.Res{Loc: []any{}, V: w}) {
+					ls[locKey(r.Loc)] = true
+				}
+				o, _ := outermost(ls)
+				w = refRemove(w, nil, o)
+			}
+			if eq(w, result) {
+				c.Cover("accepted:remove-reapplied-after-filter-change")
+				want = w
+			}
+		}
 		if !eq(want, result) {
 			c.Violation("jp.Expr."+op, "state", class, cs, clip(treegen.Show(want)), clip(treegen.Show(normTree(result))))
 			return
@@ -510,6 +527,15 @@ func (ck *checker) check(op string, p jpref.Path, d0 any, enum bool, modKind str
 			c.Violation("jp.Expr."+op+"(gen)", "gen-state-differs-from-simple", class, cs, clip(treegen.Show(normTree(result))), clip(treegen.Show(normTree(gres))))
 		}
 	}
+}
+
+func hasFilter(p jpref.Path) bool {
+	for _, f := range p {
+		if f.Kind == "filter" {
+			return true
+		}
+	}
+	return false
 }
 
 func keys(m map[string]bool) []string {
